@@ -21,8 +21,9 @@ encodable.  The model keeps the documented contract and turns the scheduler into
 NOT modelled (outside the claim): real threads, the GIL, time-outs of ``Queue.get/put``, deadlock freedom of
 ``close`` in the real interpreter.
 
-``selftest_script`` runs one deterministic script against the model (with the scheduler fixed to "lazy")
-and against the real ``Worker`` and is compared by ``props.c20_cache_events.model_selftest`` in concrete mode.
+``SCENARIOS`` are fixed scripts that are executed against the model (schedulers "lazy" and "eager") and against the real
+``Worker`` (daemon thread, every scenario under a deadline) and compared by ``props.c20_cache_events.model_selftest``
+in both modes: plain execution validating the contract, not a solver claim.
 """
 from tenpy.tools.thread import WorkerDied
 
@@ -166,30 +167,44 @@ class SharedDict(dict):
         dict.__delitem__(self, k)
 
 
-def selftest_script(make_worker):
-    """observations that must coincide between the model and the real Worker (deterministic after join_tasks)"""
-    out = []
-    log = []
-    res = {}
+def _scenario_fifo(make_worker):
+    """FIFO, each task exactly once, join_tasks completes all queued tasks (queue bound forces put_task to block)"""
+    log, res = [], {}
 
-    def task(i, fail=False):
+    def task(i):
         log.append(i)
-        if fail:
-            raise IOError('injected')
         return 10 * i
 
     w = make_worker().__enter__()
     for i in range(5):
         w.put_task(task, i, return_dict=res, return_key=f'k{i}')
     w.join_tasks()
-    out.append(('fifo, each once, join completes all', list(log), sorted(res.items())))
-    out.append(('alive', w.worker_thread.is_alive(), w.exit.is_set()))
+    out = [('fifo, each once, join completes all', list(log), sorted(res.items())),
+           ('alive', w.worker_thread.is_alive(), w.exit.is_set())]
+    w.__exit__(None, None, None)
+    return out
+
+
+def _scenario_failing_task(make_worker):
+    """a task raises while the caller is already blocked in join_tasks(): WorkerDied, no hang; later put/join raise too"""
+    import threading
+    log = []
+
+    def task(i, fail=False):
+        if fail:
+            threading.Event().wait(0.3)  # the caller is inside join_tasks() by now (real Worker); no-op for the model
+            log.append(i)
+            raise IOError('injected')
+        log.append(i)
+
+    out = []
+    w = make_worker().__enter__()
     w.put_task(task, 5, fail=True)
     try:
         w.join_tasks()
-        out.append(('join after failing task', 'returned'))
+        out.append(('join while the task fails', 'returned'))
     except WorkerDied:
-        out.append(('join after failing task', 'WorkerDied'))
+        out.append(('join while the task fails', 'WorkerDied'))
     for nm, f in (('put', lambda: w.put_task(task, 6)), ('join', w.join_tasks)):
         try:
             f()
@@ -199,14 +214,45 @@ def selftest_script(make_worker):
     out.append(('task after death not executed', 6 in log))
     w.__exit__(None, None, None)
     out.append(('exit after death returns', True, w.worker_thread.is_alive()))
-    # clean shutdown
+    return out
+
+
+def _scenario_failing_task_with_queue(make_worker):
+    """tasks queued behind a failing one are dropped and join_tasks still returns (WorkerDied)"""
+    import threading
+    log = []
+
+    def task(i, fail=False):
+        if fail:
+            threading.Event().wait(0.3)
+            raise IOError('injected')
+        log.append(i)
+
+    out = []
+    w = make_worker().__enter__()
+    try:
+        w.put_task(task, 0, fail=True)
+        w.put_task(task, 1)
+        w.put_task(task, 2)
+        w.join_tasks()
+        out.append(('put/join with tasks queued behind the failing one', 'returned'))
+    except WorkerDied:  # (at the join for the real Worker; an eager scheduler already sees it at the next put)
+        out.append(('put/join with tasks queued behind the failing one', 'WorkerDied'))
+    out.append(('queued tasks dropped', list(log)))
+    w.__exit__(None, None, None)
+    return out
+
+
+def _scenario_clean_exit(make_worker):
+    res = {}
+    out = []
     w2 = make_worker().__enter__()
-    w2.put_task(task, 7, return_dict=res, return_key='k7')
+    w2.put_task(lambda: 70, return_dict=res, return_key='k7')
     w2.join_tasks()
     w2.__exit__(None, None, None)
     out.append(('clean exit', res.get('k7'), w2.worker_thread.is_alive()))
     try:
-        w2.put_task(task, 8)
+        w2.put_task(lambda: 80)
         out.append(('put after exit', 'returned'))
     except WorkerDied:
         out.append(('put after exit', 'WorkerDied'))
@@ -216,3 +262,33 @@ def selftest_script(make_worker):
     except ValueError:
         out.append(('re-enter', 'ValueError'))
     return out
+
+
+SCENARIOS = [('fifo / exactly once / join completes all', _scenario_fifo),
+             ('failing task surfaces as WorkerDied, no hang', _scenario_failing_task),
+             ('failing task with queued tasks: WorkerDied, no hang', _scenario_failing_task_with_queue),
+             ('clean exit', _scenario_clean_exit)]
+
+HANG = ('HANG', )
+
+
+def run_scenario(fn, make_worker, deadline_s=None):
+    """run one fixed scenario; with a deadline it runs in a daemon helper thread and ``HANG`` is returned if it does not
+    come back in time (a hang of the real Worker is an observation, not a stuck check)"""
+    if deadline_s is None:
+        return fn(make_worker)
+    import threading
+    box = []
+
+    def target():
+        try:
+            box.append(fn(make_worker))
+        except BaseException as e:  # noqa
+            box.append([('scenario raised', type(e).__name__, str(e)[:100])])
+
+    t = threading.Thread(target=target, name='verif-worker-scenario', daemon=True)
+    t.start()
+    t.join(deadline_s)
+    if t.is_alive() or not box:
+        return HANG
+    return box[0]
